@@ -76,7 +76,7 @@ def _r6(x):
     return round(float(x), 6)
 
 
-def gen_spec(rng: random.Random, max_nodes: int = 5, tie_p: float = 0.3, overrun_bias: float = 0.5, allow_source: bool = False) -> dict:
+def gen_spec(rng: random.Random, max_nodes: int = 5, tie_p: float = 0.3, overrun_bias: float = 0.5, allow_source: bool = False, shadow_p: float = 0.12) -> dict:
     n = rng.randint(2, max_nodes)
     tie = rng.random() < tie_p
     base = rng.choice(BASES)
@@ -165,6 +165,9 @@ def gen_spec(rng: random.Random, max_nodes: int = 5, tie_p: float = 0.3, overrun
             d = ["det", _r6(per * rng.choice([0.0, 0.25]))]
             conns.append(dict(dst=i, src=b, blocking=False, skip=True, jitter="L", window=rng.randint(1, 2), dist=d, delay=None))
     spec["open_loop"] = len(reachable_from_sup(spec)) < n
+    for k_, c_ in enumerate(conns):
+        if rng.random() < shadow_p:
+            c_["name"] = f"in{k_}"  # the receiver knows this input under a shadow name: connect(..., name=...)
     _repair(spec)
     return spec
 
